@@ -9,7 +9,8 @@ from ..gen import node_types, size
 from ..oracles import scan
 from ..sexp import A, dumps, exc_to_sx, expr_to_sx, loads, q, sx_shrinks, sx_to_expr
 from ..syntax import (LEX_NAMES, LexGen, tidy, SyntaxGen, codes, flatten_assoc, lex_strings, lex_tokens,
-                      real_lex_raw, real_lex_tokens, three_level, two_level)
+                      nested_slice_cases, real_lex_raw, real_lex_tokens, slice_context_cases, slices_anywhere,
+                      three_level, two_level)
 
 
 def extract(ctx):
@@ -92,6 +93,8 @@ def normalize_all(e):
     import dataclasses
     if isinstance(e, tuple):
         return tuple(normalize_all(c) for c in e)
+    if isinstance(e, list):
+        return [normalize_all(c) for c in e]
     if not isinstance(e, p.Expression) or not dataclasses.is_dataclass(e):
         return e
     if isinstance(e, NARY):
@@ -157,26 +160,76 @@ def classify(e):
     return f"roundtrip:{kind(m)}>{off}", m
 
 
+def _holds(c, old):
+    """is `old` (identity) a part of the slice / tuple `c`, one or two levels down?"""
+    parts = c.children if isinstance(c, p.Slice) else c
+    return any(d is old or (isinstance(d, (p.Slice, tuple)) and _holds(d, old)) for d in parts)
+
+
 def replace_child(m, old, new):
+    """`m` with the child `old` (identity) replaced; every other child keeps its identity (a slice
+    or tuple is rebuilt only when `old` is inside it)"""
     import dataclasses
-    if isinstance(m, tuple):
-        return tuple(new if c is old else c for c in m)
+    if isinstance(m, (tuple, list)):
+        return type(m)(new if c is old else c for c in m)
+
+    def sub(c):
+        return replace_child(c, old, new) if isinstance(c, (p.Slice, tuple)) and _holds(c, old) else c
     kw = {}
     for f in dataclasses.fields(m):
         v = getattr(m, f.name)
         if v is old:
             kw[f.name] = new
         elif isinstance(v, tuple):
-            kw[f.name] = tuple(
-                new if c is old else (replace_child(c, old, new) if isinstance(c, (p.Slice, tuple)) else c)
-                for c in v)
+            kw[f.name] = tuple(new if c is old else sub(c) for c in v)
         elif hasattr(v, "items"):
             kw[f.name] = {k: (new if c is old else c) for k, c in v.items()}
         elif isinstance(v, p.Slice):
-            kw[f.name] = replace_child(v, old, new)
+            kw[f.name] = sub(v)
         else:
             kw[f.name] = v
     return type(m)(**kw)
+
+
+def _fresh(i):
+    return p.Variable(f"r{i}")
+
+
+def slice_shape_offence(m, sl):
+    """`m` fails and holds the slice `sl` (identical object): "slice-open-end" if giving the slice
+    a last bound repairs `m`, "slice-open-start" if giving it a first bound does, else None"""
+    cs = sl.children
+    if len(cs) >= 2 and cs[-1] is None and cs[-2] is not None:
+        if not hard_problem(replace_child(m, sl, p.Slice(cs[:-1] + (_fresh(8),)))):
+            return "slice-open-end"
+    if len(cs) >= 2 and cs[0] is None:
+        if not hard_problem(replace_child(m, sl, p.Slice((_fresh(9),) + cs[1:]))):
+            return "slice-open-start"
+    return None
+
+
+def slice_offence(m, sl):
+    """`m` fails because of its child `sl`, a slice that round-trips on its own: name the bound of
+    the slice that is to blame (the failure goes away when the non-leaf bounds are replaced by
+    plain variables), else the open end / start, else the slice"""
+    bounds = [(i, d) for i, d in enumerate(sl.children)
+              if isinstance(d, (p.Expression, tuple)) and not isinstance(d, p.Variable)]
+    if bounds:
+        def with_plain(keep):
+            return p.Slice(tuple(_fresh(i) if any(i == j and j != keep for j, _ in bounds) else d
+                                 for i, d in enumerate(sl.children)))
+        try:
+            if not hard_problem(replace_child(m, sl, with_plain(None))):
+                for j, d in bounds:
+                    if hard_problem(replace_child(m, sl, with_plain(j))):
+                        return kind(d)
+                return ",".join(sorted({kind(d) for _, d in bounds}))
+        except Exception:
+            pass
+    try:
+        return slice_shape_offence(m, sl) or "Slice"
+    except Exception:
+        return "Slice"
 
 
 def offender(m):
@@ -192,7 +245,16 @@ def offender(m):
             m2 = p.Subscript(m.aggregate, p.Slice(m.index.children[:-1]
                                                   + (p.Variable("q8"),)))
             if not hard_problem(m2):
-                return "slice-trailing-omitted"
+                # two omitted parts at the end print like the slice one part shorter (known); ONE
+                # omitted part after a present one is what the text `a:` / `a:b:` says
+                return "slice-trailing-omitted" if m.index.children[-2] is None else "slice-open-end"
+        # a slice of the index (alone or in the index tuple) that fails only for its open end / start
+        idx = m.index
+        for sl in ([idx] if isinstance(idx, p.Slice) else
+                   [c for c in idx if isinstance(c, p.Slice)] if isinstance(idx, tuple) else []):
+            why = slice_shape_offence(m, sl)
+            if why is not None:
+                return why
     if isinstance(m, p.CallWithKwargs) and not m.kw_parameters:
         m2 = p.Call(m.function, m.parameters)
         if not hard_problem(m2):
@@ -209,6 +271,10 @@ def offender(m):
                 # a one-operand n-ary node prints as its operand: name what is really printed
                 while isinstance(c, NARY) and len(c.children) == 1:
                     c = c.children[0]
+                if isinstance(c, p.Slice):
+                    # (replace_child rebuilds slices: find the object that now stands for c)
+                    c2 = next((k for k in syntax_children(m2) if isinstance(k, p.Slice) and k == c), c)
+                    return slice_offence(m2, c2)
                 return kind(c)
         except Exception:
             pass
@@ -280,6 +346,14 @@ class PrintStream(Stream):
             yield {"expr": dumps(expr_to_sx(e)), "src": "directed"}
         for e in nested_tuples(3 if tier == "quick" else 4):
             yield {"expr": dumps(expr_to_sx(e)), "src": "nested-tuples"}
+        # slices as expressions in their own right: every expressible shape (open start / end /
+        # step) in every context of the text syntax, and at a random place of random deep trees
+        for tag, e in slice_context_cases(rng, tier):
+            yield {"expr": dumps(expr_to_sx(e)), "src": tag}
+        for e in slices_anywhere(rng, 600 if tier == "quick" else 15000, 3 if tier == "quick" else 4):
+            yield {"expr": dumps(expr_to_sx(e)), "src": "slice-anywhere"}
+        for e in nested_slice_cases():
+            yield {"expr": dumps(expr_to_sx(e)), "src": "nested-slices"}
         n3 = 1500 if tier == "quick" else 40000
         for e in three_level(rng, n3):
             yield {"expr": dumps(expr_to_sx(e)), "src": "three-level"}
@@ -313,6 +387,9 @@ class PrintStream(Stream):
         if roundtrip_problem(e) is None:
             return None
         key, m = classify(e)
+        # a numeric literal in aggregate position (`tidy` hosts of the slice-anywhere family can have
+        # one): the lexer's finding, under its own key
+        key = lexical_key(m) or key
         return Failure(key, f"{m!r}: {roundtrip_problem(m)}", {**pl, "expr": dumps(expr_to_sx(m))})
 
     def shrink(self, pl):
@@ -421,6 +498,10 @@ class FragmentStream(Stream):
         g = SyntaxGen(rng)
         for _ in range(1500 if tier == "quick" else 30000):
             yield {"expr": dumps(expr_to_sx(g.gen(rng.randint(2, 8)))), "src": "random"}
+        # slices as expressions in their own right, in every context (which of them the theorems cover)
+        for tag, e in slice_context_cases(rng, tier):
+            if tier != "quick" or rng.random() < 0.4:
+                yield {"expr": dumps(expr_to_sx(e)), "src": "slice-context"}
 
     def request(self, pl):
         return f"(fragment {pl['expr']})"
@@ -497,6 +578,30 @@ class LexTokStream(LexRawStream):
         return "diff"
 
 
+COLON_FOLLOWERS = ["", ")", ",", "]", ":", "b", "-b", "+", "*", " if c else d", " else", "=", "=b", "(", "[", ".u",
+                   "not b", " and b", "1", "1.5", "True", "(b)", "[b]", "::", ":b", ",)", ", b", "))", ")]", "~b"]
+COLON_FRAMES = ["a:{}", ":{}", "a:b:{}", "f(a:{})", "f(a:{}", "(a:{})", "(a:{}) + c", "v[a:{}]", "v[a:{}", "f(c, a:{})",
+                "f(a:{}, c)", "f(k=a:{})", "f(k=a:{}, l=c)", "(c, a:{})", "(a:{},)", "[a:{}]", "v[c, a:{}]", "v[a:{}, c]",
+                "f(:{})", "v[:{}]", "(:{})", "f(a::{})", "g[f(b, a:{})]", "f((c, a:{}))", "c if (a:{}) else d"]
+
+
+def slice_texts(rng, tier):
+    """texts for the parser streams: printed slices in every context of the text syntax, and a
+    colon followed by every kind of token in every frame (what follows a colon decides whether the
+    parser reads a bound)"""
+    keep = 0.35 if tier == "quick" else 1.0
+    for _tag, e in slice_context_cases(rng, "quick"):
+        if rng.random() < keep:
+            try:
+                yield {"text": to_str(e), "minprec": rng.choice([0, 0, 0, 5, 100])}
+            except Exception:
+                continue
+    for frame in COLON_FRAMES:
+        for t in COLON_FOLLOWERS:
+            if tier != "quick" or rng.random() < 0.5:
+                yield {"text": frame.format(t), "minprec": 0}
+
+
 class ParseStringStream(Stream):
     """`Parser()(text, min_precedence)` vs the model on the STRING (model lexer, then model parser):
     printed expressions, perturbed strings, malformed text"""
@@ -524,6 +629,7 @@ class ParseStringStream(Stream):
         for s, kind in lex_strings(rng, "quick"):
             if kind in ("edge", "numeric"):
                 yield {"text": s, "minprec": 0}
+        yield from slice_texts(rng, tier)
 
     def request(self, pl):
         return f"(parsestr {pl['minprec']} {codes(pl['text'])})"
@@ -841,14 +947,33 @@ def probe_lexical():
 # }}}
 
 
+def probe_slices():
+    """slices as expressions in their own right: the known findings about a slice / a conditional
+    as a BOUND of a slice, replayed on the real code"""
+    a, b, c, v = (p.Variable(n) for n in "abcv")
+    x, y, z = (p.Variable(n) for n in "xyz")
+    seen = {}
+    for key, e in (("roundtrip:Slice>Slice", p.Slice((p.Slice((a, b)), c))),
+                   ("roundtrip:Slice>Slice", p.Call(v, (p.Slice((p.Slice((a, None)), c)),))),
+                   ("roundtrip:Subscript>Slice", p.Subscript(v, p.Slice((p.Slice((a, b)), c)))),
+                   ("roundtrip:Slice>If", p.Slice((p.If(c, x, y), z))),
+                   ("roundtrip:Slice>If", p.Call(v, (p.Slice((p.If(c, x, y), z)), a)))):
+        prob = roundtrip_problem(e)
+        got = classify(e)[0] if prob is not None else None
+        if key not in seen or (prob is not None and got == key and not seen[key][1]):
+            seen[key] = (key, prob is not None and got == key, f"{e!r}: {prob}")
+    return list(seen.values())
+
+
 PROP = Prop(
     id="C06",
     title="Printing an expression and parsing the text gives the expression back",
-    lean_targets=["PV.Properties.C06", "PV.Properties.C06Table", "PV.Properties.C06Value"],
+    lean_targets=["PV.Properties.C06", "PV.Properties.C06Table", "PV.Properties.C06Value",
+                  "PV.Properties.C06Slices"],
     extractors=[extract],
     streams=[PrintStream(), PrintOrderStream(), ParseStream(), FragmentStream(), LexRawStream(), LexTokStream(),
              ParseStringStream(), StringFragmentStream(), TableStrStream(), TableDispatchStream()],
-    probes=[probe_lexical],
+    probes=[probe_lexical, probe_slices],
     trusted_base=["Lean 4.33 kernel; axioms propext, Classical.choice, Quot.sound only",
                   "the lexer is modelled (PV/Model/Lexer.lean) and run on the rule table regenerated "
                   "by extract/lex.py; Python's `re` (the meaning of the eight character-class "
@@ -866,12 +991,20 @@ PROP = Prop(
                "lexer (lex_render, roundtrip_string_partial / _current; LexSafe decidable); print_total, "
                "str_idempotent, str_flatten_invariant; exactly 23 (position, child class) pairs fail "
                "the local compatibility condition (bad_triples_current, decide) = the known findings. "
+               "Slices with an omitted last bound (outside that fragment) round-trip in each of 66 contexts "
+               "x 9 expressible shapes, whatever follows the last colon (slice_contexts_roundtrip_current / "
+               "_string_current, decide on the models with the regenerated tables). The value half: "
+               "roundtrip_value_partial / roundtrip_value_current (the reparsed tree denotes the same "
+               "value or error in every environment; PV/Proofs/FlattenDen.lean). "
                "Printer, parser and lexer are tied by T-gen: every StringifyMapper handler, every "
                "parser branch and the lexer rule table are re-read from the source on every run and "
                "the hand-written models are proved equal to the table interpreters for all inputs "
                "(strE_eq_table_current, parse_eq_table_current, lex_table_current).",
-    level_note="Partial: 'same value in every environment' follows from tree equality modulo "
-               "flattening (proved) plus C02; Min/Max/CSE/wildcards, n-ary bitwise/logical nodes with "
+    level_note="'Same value in every environment' is proved: den env (flattenAssoc e) = den env e for "
+               "every tree and environment (flatten_same_value: same value of the same Python type or "
+               "the same error; floats are one abstract value, nothing is claimed about rounding under "
+               "re-association), hence roundtrip_value_current: the reparsed tree has the same "
+               "denotation in every environment. Partial: Min/Max/CSE/wildcards, n-ary bitwise/logical nodes with "
                "!= 2 operands and the 23 failing parent/child pairs are outside the fragment "
                "(witnesses + known findings). Trusted: Lean kernel; the meaning of the eight "
                "character-class regular expressions, float() and repr(float) (hand-modelled, tied by "
